@@ -138,6 +138,9 @@ type PropRec struct {
 	Total    *big.Int
 	DepEnd   int64
 	VoteEnd  int64
+	VP       int64    // the voting period that applies (elapsed one once voting has started)
+	Min      *big.Int // the deposit that opens the voting period
+	Exp      bool
 }
 type DepRec struct {
 	Pid, A int64
@@ -333,6 +336,23 @@ func (h *Hist) Snapshot(ctx sdk.Context) *Snap {
 		if p.VotingEndTime != nil {
 			pr.VoteEnd = ns(*p.VotingEndTime)
 		}
+		// period and opening deposit as the real keeper assigns them to this proposal (expedited flag,
+		// per-message custom params)
+		pr.Exp = p.Expedited
+		params, err := gk.Params.Get(ctx)
+		lib.Must(err)
+		if p.VotingStartTime != nil && p.VotingEndTime != nil {
+			pr.VP = p.VotingEndTime.Sub(*p.VotingStartTime).Nanoseconds()
+		} else {
+			base := params.VotingPeriod
+			if p.Expedited {
+				base = params.ExpeditedVotingPeriod
+			}
+			pr.VP = c.App.GovKeeper.GetCustomMsgVotingPeriod(ctx, base, p).Nanoseconds()
+		}
+		md, err := c.App.GovKeeper.GetMinDepositAmountFromProposalMsgs(ctx, p.GetMinDepositFromParams(params), p)
+		lib.Must(err)
+		pr.Min = md.AmountOf("FX").BigInt()
 		s.Props = append(s.Props, pr)
 		return false, nil
 	}))
@@ -439,7 +459,11 @@ func (s *Snap) Coq(cfg string) string {
 		return "(" + z(x.ID) + ", UKval " + z(x.V) + ")"
 	}))
 	w(list(s.Props, func(x PropRec) string {
-		return "(" + z(x.ID) + ", PR " + fmt.Sprint(x.Status) + " " + z(x.Proposer) + " " + zb(x.Total) + " " + z(x.DepEnd) + " " + z(x.VoteEnd) + ")"
+		ex := "0"
+		if x.Exp {
+			ex = "1"
+		}
+		return "(" + z(x.ID) + ", PR " + fmt.Sprint(x.Status) + " " + z(x.Proposer) + " " + zb(x.Total) + " " + z(x.DepEnd) + " " + z(x.VoteEnd) + " " + z(x.VP) + " " + zb(x.Min) + " " + ex + ")"
 	}))
 	w(list(s.Deposits, func(x DepRec) string { return "(" + p2(x.Pid, x.A) + ", " + zb(x.Amt) + ")" }))
 	w(list(s.Votes, func(x [2]int64) string { return p2(x[0], x[1]) }))
